@@ -11,6 +11,7 @@ TRUSTED_COMMON = [
 
 PROPS = {
     "C03": {
+        "profiles": ["release", "debug"],
         "corr": "Model.Mean.step vs signalo_filters::mean::mean::Mean::filter",
         "rule": "exhaustive histories over {-1,0,2,5} up to the tier's length for every width, plus seeded random rational/integer histories with plateaus and outliers; all cases distinct (deduplicated by spec line); non-trivial = history longer than the window (an eviction happens) AND first sample non-zero, as evaluated by Check/C03.v in Coq",
         "trusted": ["model of circular_buffer::CircularBuffer::push_back as a bounded list (Base/ListX.v)",
@@ -90,6 +91,7 @@ PROPS["C10"] = {
 }
 
 PROPS["C08"] = {
+    "profiles": ["release", "debug"],
     "corr": "Model.Classify.{thr_step,schmitt_step,deb_step} vs classify::{threshold,schmitt,debounce}::filter (outputs; final on/count via IntoGuts; counters injected through FromGuts)",
     "rule": "Threshold/Schmitt/Debounce<i64,i64> with distinct configured on/off values: all histories over the sample positions below/equal/between/above the thresholds (threshold 5 over {4,5,6}; schmitt with low<high, low=high, low>high), debounce thresholds 0..8 over {match, mismatch}^7, injected counters MAX-3..MAX with thresholds {0,1,3,MAX-2,MAX-1,MAX}, plus seeded random runs; non-trivial = at least 3 samples and both output values occur (Check/C08.v)",
     "trusted": ["samples are i64 / Z (total order)", "usize = 64 bit in the executed instances; the debounce theorems hold for every counter maximum"],
@@ -98,6 +100,7 @@ PROPS["C08"] = {
     "level_note": "Trusted: Coq kernel/vm_compute; Model/Classify.v validated on explored cases.",
 }
 PROPS["C09"] = {
+    "profiles": ["release", "debug"],
     "corr": "Model.Classify.{slopes_step,peaks_step,peaks_slope_step} vs classify::slopes::Slopes::filter and both Filter impls of classify::peaks::Peaks",
     "rule": "Slopes<f64,usize>, Peaks<f64,usize>, Peaks<Slope,usize>: all sequences over {0,1,2} up to the tier's length (all slope sequences for the slope-driven path), all sequences over {0,1,NaN,2} of length 6 (7), plus seeded random longer ones; non-trivial = both a rising/max and a falling/min class occur in the output (Check/C09.v)",
     "trusted": ["f64 on small integers is exact; NaN is the only incomparable value"],
@@ -151,6 +154,7 @@ PROPS["C18"] = {
 }
 
 PROPS["C01"] = {
+    "profiles": ["release", "debug"],
     "corr": "Model.Pipes.{pfilter,psource,psink,pfinalize} instantiated with the models of the probe stages vs the real signalo_pipes::Pipe / UnitPipe / `|` nestings (outputs, per-stage invocation log, finalize result)",
     "rule": "every binary nesting of k = 1..5 stages (1+1+2+5+14 shapes; k <= 6 thorough), each as built by Pipe::new, entirely by `|`, and with randomly sprinkled UnitPipe wrappers and `|`; as a filter, as a source (first stage FromIter with 0..6 items, 3 pulls past the end) and as a sink (last stage Integrate/Max/Collect sink, finalized); stages drawn from Integrate, Differentiate, Delay<2>, 2x+1, each wrapped in a probe that appends (stage id, input) to a shared log; random i64 inputs; non-trivial = at least 3 stages and 2 samples (Check/C01.v)",
     "trusted": ["boxing glue harness/src/dynpipe.rs (boxed stages between the real Pipe/UnitPipe layers) and the logging probes", "homogeneous sample type i64 (that stage types line up in a real pipe is enforced by rustc)", "Check/C01.v's models of the four probe filters, the source and the three sinks"],
